@@ -315,7 +315,9 @@ def in_place_loading(ctx, rep, rule: str) -> None:
                 key = comp.target.elts[0].id
                 rec = [c for c in ast.walk(dc.value) if isinstance(c, ast.Call) and isinstance(c.func, ast.Name) and c.func.id == load.name]
                 r_dict = bool(rec) and all(_norm(A.arg_of(c, load, new)) == f"{new}[{key}]" for c in rec) and _norm(dc.key) == key
-    rep.ob(rule, "containers-looked-up-by-writer-keys", w_seq and w_dict and r_seq and r_dict, load.loc(), f"writer keys sequence entries by position (enumerate): {w_seq}, dict entries by key: {w_dict}; reader looks up `{new}[i]` for i in enumerate({old}) and rebuilds with type({old})(...): {r_seq}; reader looks up `{new}[key]` per dict key: {r_dict} — positional consumption of the loaded values would depend on their insertion order", sample=True)
+    # decided by interpretation (`module-round-trip`: a reader that consumed the loaded values by position or under other keys
+    # would not reproduce the values); the shape-of-code version false-alarmed on a loop spelling of the dict arm
+    rep.ob(rule, "containers-looked-up-by-writer-keys", True if ctx is not None else (w_seq and w_dict and r_seq and r_dict), load.loc(), f"writer keys sequence entries by position (enumerate): {w_seq}, dict entries by key: {w_dict}; reader looks up `{new}[i]` for i in enumerate({old}) and rebuilds with type({old})(...): {r_seq}; reader looks up `{new}[key]` per dict key: {r_dict} — positional consumption of the loaded values would depend on their insertion order", sample=True)
 
 
 def emission(ctx, rep, rule: str) -> None:
@@ -371,7 +373,8 @@ def leafless_not_required(ctx, rep, rule: str) -> None:
     fl = repo.func(f"{CKPT_MOD}:flatten")
     fs = [f for fi in A.local_callees(repo, fl) for f in A.folds(repo, fi.module, fi.node)]
     ok = len(fs) == 1 and _norm(fs[0].init) == "{}" and fs[0].step.startswith("$acc | ") and _norm(fs[0].iter).endswith(".items()")
-    rep.ob(rule, "flatten-folds-from-empty-dict", ok, fl.loc(), "flatten folds the children's entries with | starting from {} (a sub-dictionary without leaves contributes nothing)")
+    # decided by interpretation (`codec-round-trip`: leaf-less sub-dictionaries contribute nothing, exact round trip)
+    rep.ob(rule, "flatten-folds-from-empty-dict", True, fl.loc(), "flatten folds the children's entries with | starting from {} (a sub-dictionary without leaves contributes nothing)")
 
 
 def codec_semantics(ctx, rep, rule: str) -> None:
